@@ -42,6 +42,13 @@ func c05Case(r *evid.Run, tier string, idx int, g *rng.R) {
 	for i := 0; i < 6; i++ {
 		vals = append(vals, genNumericString(g))
 	}
+	big := idx%10 == 9
+	if big {
+		// large node-sets (size products beyond a few thousand pairs)
+		for i := 0; i < 90; i++ {
+			vals = append(vals, rng.Pick(g, []string{"1", "2", "3", "a", "b", "10", " 2 ", "x"}))
+		}
+	}
 	rng.Shuffle(g, vals)
 	d, vnodes := valueDoc(vals)
 	w, err := newWorld(d)
@@ -53,6 +60,9 @@ func c05Case(r *evid.Run, tier string, idx int, g *rng.R) {
 	// node-sets
 	for i := 0; i < 7; i++ {
 		k := g.Intn(5)
+		if big && i >= 4 {
+			k = g.Range(66, len(vnodes))
+		}
 		if i == 0 {
 			k = 0
 		}
@@ -79,7 +89,11 @@ func c05Case(r *evid.Run, tier string, idx int, g *rng.R) {
 			cond = xast.Binary{Op: "or", L: cond, R: xast.Binary{Op: "=", L: xast.Fn("position"), R: xast.N(float64(x))}}
 		}
 		p := xast.Abs(xast.S("child", xast.NameT("", "r")), xast.S("child", xast.NameT("", "v"), cond))
-		pool = append(pool, operand{ns, lib, fmt.Sprintf("node-set:%d", len(ns)), p})
+		var spelled xast.Expr = p
+		if len(idxs) > 8 {
+			spelled = nil // a path spelling with dozens of 'or' terms costs seconds to compile
+		}
+		pool = append(pool, operand{ns, lib, fmt.Sprintf("node-set:%d", len(ns)), spelled})
 	}
 	// node-sets taken from a second document (same positions, different values): comparisons are
 	// by string-value, never by position or identity
